@@ -355,7 +355,7 @@ func TestC10(t *testing.T) {
 	hx.Check[c10Case]{
 		Property: "C10", Part: "histories",
 		Rule:  "histories of 1-4 verifications on the SAME loaded layout object, key map and parameter maps, each repeated 4x (thorough 16x) and compared with a freshly loaded copy: (chain) generated accepting chains whose verdict depends on the parameter dictionary, with equal and different dictionaries; (mixed) steps mixing key- and certificate-authorised links with thresholds at the edge; (direct) VerifyArtifacts on caller-owned links with un-clean artifact names; caller-owned objects are serialised before and after every call; non-trivial = >=2 calls with a non-empty dictionary or a mixed population, or a direct case; distinct by case JSON",
-		Cases: hx.Pick(200, 5000),
+		Cases: hx.Pick(200, 15000),
 		Gen:   c10Gen, Run: c10Run,
 	}.Execute(t)
 }
